@@ -36,6 +36,10 @@ def _replace_model(it, s, a, b, *cnt):
             it.ex.assume(z3.Not(z3.Contains(r, a.t)))
         if len(ac) == 1 and bc is not None and len(bc) == 1:
             it.ex.assume(z3.Length(r) == z3.Length(s.t))
+        if bc is not None and len(bc) >= len(ac):
+            it.ex.assume(z3.Length(r) >= z3.Length(s.t))
+        if bc is not None and len(bc) > len(ac):
+            it.ex.assume(z3.Implies(z3.Contains(s.t, a.t), z3.Length(r) > z3.Length(s.t)))
         it.ex.note("assumed", "str.replace(a,b): result == s if a not in s; for one-character a not occurring in b the result contains no a")
     return type(s)(r)
 
@@ -133,3 +137,125 @@ def _lookup_function(o):
 
 
 _lib.lookup_function = _lookup_function
+
+
+# ---------------------------------------------------------------------------------------------------------------------
+# obj.__dict__ as a write-through view: `self.__dict__["_options"] = old` (OptManager.rollback) must update the object.
+
+
+class _FieldItems(list):
+    """association list [(SStr name, value)] mirroring SObj.fields; mutations are written through to the object"""
+
+    def __init__(self, obj):
+        super().__init__((SStr(k), v) for k, v in obj.fields.items())
+        self._obj = obj
+
+    def _sync(self):
+        f = self._obj.fields
+        f.clear()
+        for k, v in self:
+            name = k.concrete()
+            if name is None:
+                raise Unsupported("symbolic attribute name in __dict__")
+            f[name] = v
+
+    def append(self, kv):
+        super().append(kv)
+        self._sync()
+
+    def __setitem__(self, i, kv):
+        super().__setitem__(i, kv)
+        self._sync()
+
+    def __delitem__(self, i):
+        super().__delitem__(i)
+        self._sync()
+
+    def pop(self, *a):
+        r = super().pop(*a)
+        self._sync()
+        return r
+
+    def clear(self):
+        super().clear()
+        self._sync()
+
+
+def obj_dict_view(obj):
+    d = SDict()
+    d.items = _FieldItems(obj)
+    return d
+
+
+_lib.obj_dict_view = obj_dict_view
+
+
+# ---------------------------------------------------------------------------------------------------------------------
+# weak references: the referent is alive for the duration of a scenario unless the scenario builds a dead reference
+# (SObj(weakref.ref, _target=NONE)).  ref() returns the referent.
+
+import weakref as _weakref
+
+
+def _mk_ref(cls):
+    def mk(it, obj, callback=None):
+        it.ex.note("assumed", "weak references created during a scenario stay alive (no garbage collection inside one call)")
+        return SObj(cls, {"_target": it.resolve(obj)})
+
+    return mk
+
+
+CLASS_MODELS[_weakref.ref] = _mk_ref(_weakref.ref)
+CLASS_MODELS[_weakref.WeakMethod] = _mk_ref(_weakref.WeakMethod)
+
+
+@builtin_method(_weakref.ref, "__call__")
+def _ref_call(it, r):
+    return r.fields["_target"]
+
+
+# ---------------------------------------------------------------------------------------------------------------------
+# copy.deepcopy: structural copy with fresh identity for containers; classes with __deepcopy__ run their own (real) code.
+
+import copy as _copy
+
+
+def _deepcopy(it, x, memo=None):
+    x = it.resolve(x)
+    if isinstance(x, (SInt, SBool, SStr, SBytes, SNoneT, SEnum, SFloat, SConst, SSeq, SBound)):
+        return x
+    if isinstance(x, STuple):
+        return STuple([_deepcopy(it, v) for v in x.items])
+    if isinstance(x, SList):
+        return SList([_deepcopy(it, v) for v in x.items])
+    if isinstance(x, SSet):
+        return SSet([_deepcopy(it, v) for v in x.items])
+    if isinstance(x, SDict):
+        return SDict([(_deepcopy(it, k), _deepcopy(it, v)) for k, v in x.items])
+    if isinstance(x, SObj):
+        m = it.find_method(x.cls, "__deepcopy__")
+        if m is not None:
+            return it.resolve(it.call_ifunc(m, [x, SDict()], {}))
+        it.ex.note("assumed", f"copy.deepcopy({x.cls.__name__}) copies every field recursively (no __deepcopy__/__reduce__ customisation)")
+        return SObj(x.cls, {k: _deepcopy(it, v) for k, v in x.fields.items()})
+    raise Unsupported(f"deepcopy of {x!r}")
+
+
+@function(_copy.deepcopy)
+def f_deepcopy(it, x, memo=None):
+    it.ex.note("assumed", "copy.deepcopy: no sharing between sub-objects of the copied value (memo ignored)")
+    return _deepcopy(it, x)
+
+
+@function(_copy.copy)
+def f_copy(it, x):
+    x = it.resolve(x)
+    if isinstance(x, SList):
+        return SList(list(x.items))
+    if isinstance(x, SDict):
+        return SDict(list(x.items))
+    if isinstance(x, SSet):
+        return SSet(list(x.items))
+    if isinstance(x, (SInt, SBool, SStr, SBytes, SNoneT, SEnum, SFloat, SConst, STuple, SSeq)):
+        return x
+    raise Unsupported(f"copy.copy of {x!r}")
